@@ -112,6 +112,17 @@ var props = map[string]propCfg{
 		}, modelAssumptions...),
 		MinNontriv: 50,
 	},
+	"C10": {
+		Quick:    tierCfg{Shards: 8, Checks: 1500, Timeout: 3 * time.Minute},
+		Thorough: tierCfg{Shards: 16, Checks: 40000, Timeout: 20 * time.Minute},
+		Rule: "complete table: patch-side import form {absent, unnamed, literally named, metavariable-named, dot, blank} x file-side imports of the guarded path {none, unnamed, same name, other name, dot, blank, spelled like the metavariable, and 8 two-spec combinations in both orders} x file layout {single imports, one group, group among unrelated imports incl. paths that are a prefix/suffix of the guarded path, two blocks, ...: 8 layouts} x package clause {absent, same, different} x guard line kind {context, '-'} x second guarded import {none, satisfied, missing, present in another form} = 17k cells, in every one of which the code pattern does occur in the file; then generated cells with 0-5 extra unrelated imports in drawn forms. Oracle: the table in the property statement decides applies / no effect; 'no effect' is checked as byte-identical Apply result. " +
+			"Non-trivial = every cell (each carries at least one guard); distinct by the cell's coordinates.",
+		Assumptions: []string{
+			"a file that imports the guarded path twice satisfies a guard if any of the two specs has the stated form",
+			"the random part shares the oracle of the table; the table part alone is a complete enumeration of the stated cross product",
+		},
+		MinNontriv: 1000,
+	},
 }
 
 var modelAssumptions = []string{
